@@ -32,12 +32,7 @@ func newDisc(t Transform, flagged bool) *disc {
 	return &disc{T: t, flagged: flagged, prim: map[string]Obj{}, claimed: map[string][]string{}}
 }
 
-func (d *disc) claimsOf(o Obj) []string {
-	if d.T.Multi {
-		return dedup(o.Outs)
-	}
-	return nil
-}
+func (d *disc) claimsOf(o Obj) []string { return claims(d.T, o) }
 
 func (d *disc) claimedByOther(p, k string) bool {
 	for q, ks := range d.claimed {
@@ -266,7 +261,11 @@ func outputs(t Transform, i Obj, fetch func(n int, f []Atom) []Obj) []Out {
 	}
 	val := sb.String()
 	if !t.Multi {
-		return []Out{{Key: i.ResourceName(), NS: i.NS, Val: val}}
+		key := i.ResourceName()
+		if t.ByVal {
+			key = "val/" + i.Val
+		}
+		return []Out{{Key: key, NS: i.NS, Val: val}}
 	}
 	var outs []Out
 	for _, k := range i.Outs {
